@@ -3,7 +3,7 @@
 From Coq Require Import List NArith ZArith Bool Lia ZifyN ZifyNat ZifyBool.
 From Coq.Strings Require Import Byte.
 From RecordUpdate Require Import RecordSet.
-From Mcap Require Import Bytes BytesFacts GoSem Crc32 Records Lexer.
+From Mcap Require Import Bytes BytesFacts GoSem Crc32 Records Lexer Source.
 Import ListNotations RecordSetNotations.
 Open Scope N_scope.
 Open Scope go_scope.
@@ -224,3 +224,820 @@ Proof.
   | apply parse_statistics_total | apply parse_metadata_total | apply parse_mdindex_total
   | apply parse_sumoffset_total | apply parse_dataend_total ].
 Qed.
+
+(* ====================================================================================== *)
+(* Part 2: readers, load_chunk in stages, one iteration of Lexer.Next                      *)
+(* ====================================================================================== *)
+
+
+(* take / drop lemmas come from Source.v *)
+Lemma drop_length n b : length (drop n b) = (length b - N.to_nat (N.min n (blen b)))%nat.
+Proof. unfold drop. rewrite skipn_length. reflexivity. Qed.
+Lemma take_drop n b : take n b ++ drop n b = b.
+Proof. unfold take, drop. apply firstn_skipn. Qed.
+
+(* ---------- readers ---------- *)
+(* r' is r after some bytes were consumed *)
+Definition adv (r r' : rdr) : Prop :=
+  r_end r' = r_end r /\ r_seek r' = r_seek r /\ (length (r_buf r') <= length (r_buf r))%nat.
+
+Lemma adv_refl r : adv r r. Proof. repeat split; lia. Qed.
+Lemma adv_trans a b c : adv a b -> adv b c -> adv a c.
+Proof. unfold adv. intuition (try congruence; try lia). Qed.
+
+Lemma rd_full_adv n r b oe r' : rd_full n r = (b, oe, r') -> adv r r'.
+Proof.
+  unfold rd_full, adv. destruct (n =? 0); [intros H; inversion H; subst; repeat split; lia|].
+  destruct (n <=? blen (r_buf r)); intros H; inversion H; subst; cbn; repeat split; try lia.
+  rewrite drop_length. lia.
+Qed.
+
+Lemma rd_full_ok n r b r' : rd_full n r = (b, None, r') ->
+  blen b = n /\ r_buf r = b ++ r_buf r' /\ r_end r' = r_end r /\ r_seek r' = r_seek r.
+Proof.
+  unfold rd_full. destruct (n =? 0) eqn:E0.
+  { intros H; inversion H; subst. apply N.eqb_eq in E0. subst. repeat split. }
+  destruct (n <=? blen (r_buf r)) eqn:E1; intros H; inversion H; subst; cbn.
+  apply N.leb_le in E1. repeat split.
+  - unfold blen. rewrite take_length. unfold blen in *. lia.
+  - symmetry; apply take_drop.
+Qed.
+
+Lemma rd_full_err n r b x r' : rd_full n r = (b, Some x, r') ->
+  x = match r_end r with
+      | None => match r_buf r with [] => EEOF | _ => EUnexpectedEOF end
+      | Some e => e end
+  /\ b = r_buf r /\ r_buf r' = [] /\ blen (r_buf r) < n.
+Proof.
+  unfold rd_full. destruct (n =? 0) eqn:E0; [discriminate|].
+  destruct (n <=? blen (r_buf r)) eqn:E1; [discriminate|].
+  intros H; inversion H; subst; cbn. apply N.leb_gt in E1. repeat split; auto.
+Qed.
+
+Lemma rd_skip_adv n r oe r' : rd_skip n r = (oe, r') -> adv r r'.
+Proof.
+  unfold rd_skip, adv. destruct (r_seek r) eqn:Es.
+  - intros H; inversion H; subst; cbn. rewrite drop_length. repeat split; auto; lia.
+  - destruct (_ <? _); intros H; inversion H; subst; cbn; rewrite ?drop_length; repeat split; auto; lia.
+Qed.
+
+Lemma rd_skip_err n r x r' : rd_skip n r = (Some x, r') -> x = end_err r /\ r_seek r = false.
+Proof.
+  unfold rd_skip. destruct (r_seek r); [discriminate|].
+  destruct (_ <? _); [|discriminate]. intros H; inversion H; auto.
+Qed.
+
+
+Section LexFacts.
+Variable lo : lopts.
+Variable dstream : doracle.
+
+Lemma adv_skipn k r : adv r {| r_buf := skipn k (r_buf r); r_end := r_end r; r_seek := r_seek r |}.
+Proof. unfold adv; cbn. rewrite skipn_length. repeat split; lia. Qed.
+Lemma adv_drop k r : adv r {| r_buf := drop k (r_buf r); r_end := r_end r; r_seek := r_seek r |}.
+Proof. apply adv_skipn. Qed.
+
+Lemma do_attachment_adv rl r ev oe r' : do_attachment lo rl r = (ev, oe, r') -> adv r r'.
+Proof.
+  unfold do_attachment.
+  destruct (lo_cb lo) eqn:Ecb.
+  - destruct (rd_skip rl r) eqn:E. intros H; inversion H; subst. eapply rd_skip_adv; eauto.
+  - match goal with |- context [match ?p with Ok _ => _ | Err _ => _ | Panic _ => _ | Exit _ => _ | OutOfFuel => _ end] =>
+      destruct p as [[[[[[lt ct] name] media] ds] o5]| | | |] end;
+    try (intros H; inversion H; subst; first [apply adv_refl|apply adv_drop]).
+    match goal with |- context[let '(_, _) := ?X in _] => destruct X as [pc pos'] end.
+    destruct (rd_skip _ _) as [e2 r2] eqn:E. intros H; inversion H; subst.
+    eapply adv_trans; [apply (adv_skipn pos')|]. eapply rd_skip_adv; eauto.
+  - match goal with |- context [match ?p with Ok _ => _ | Err _ => _ | Panic _ => _ | Exit _ => _ | OutOfFuel => _ end] =>
+      destruct p as [[[[[[lt ct] name] media] ds] o5]| | | |] end;
+    try (intros H; inversion H; subst; first [apply adv_refl|apply adv_drop]).
+    match goal with |- context[let '(_, _) := ?X in _] => destruct X as [pc pos'] end.
+    destruct (rd_skip _ _) as [e2 r2] eqn:E. intros H; inversion H; subst.
+    eapply adv_trans; [apply (adv_skipn pos')|]. eapply rd_skip_adv; eauto.
+  - match goal with |- context [match ?p with Ok _ => _ | Err _ => _ | Panic _ => _ | Exit _ => _ | OutOfFuel => _ end] =>
+      destruct p as [[[[[[lt ct] name] media] ds] o5]| | | |] end;
+    try (intros H; inversion H; subst; first [apply adv_refl|apply adv_drop|apply adv_skipn]).
+Qed.
+
+Lemma do_attachment_none rl r : lo_cb lo = CbNone ->
+  do_attachment lo rl r = (None, fst (rd_skip rl r), snd (rd_skip rl r)).
+Proof. intros H. unfold do_attachment. rewrite H. destruct (rd_skip rl r); reflexivity. Qed.
+
+(* ---------- load_chunk in stages ---------- *)
+Inductive lc1 :=
+| LC1Err (e : err) (s : lstate)
+| LC1Ok (usize ucrc : N) (comp : bytes) (rlen : N) (s : lstate).
+
+Definition lc_supported (comp : bytes) : bool :=
+  mem_bytes comp (lo_custom lo) || bytes_eqb comp [] || bytes_eqb comp [x7a; x73; x74; x64]
+  || bytes_eqb comp [x6c; x7a; x34].
+
+Definition lc_head (record_len : N) (s : lstate) : lc1 :=
+  let '(hd, e, b1) := rd_full 32 (lx_base s) in
+  let s := s <| lx_base := b1 |> in
+  match e with
+  | Some EUnexpectedEOF => LC1Err ETruncated s
+  | Some e => LC1Err e s
+  | None =>
+    let usize := unle (sub hd 16 8) in
+    let ucrc := unle (sub hd 24 4) in
+    let clen := unle (sub hd 28 4) in
+    let need := clen + 8 in
+    if record_len <? 32 + need then LC1Err EOther s else
+    let grow := lx_bufcap s <? need in
+    if grow && negb (need <? max_int32) then LC1Err ELengthOutOfRange s else
+    let s := if grow then s <| lx_allocs := need :: lx_allocs s |> <| lx_bufcap := need |> else s in
+    let '(cb, e, b2) := rd_full need (lx_base s) in
+    let s := s <| lx_base := b2 |> in
+    match e with
+    | Some EUnexpectedEOF | Some EEOF => LC1Err ETruncated s
+    | Some e => LC1Err e s
+    | None =>
+      let rlen := unle (drop clen cb) in
+      LC1Ok usize ucrc (take clen cb) (if 9223372036854775807 <? rlen then 0 else rlen) s
+    end
+  end.
+
+(* the limited reader over the base and the decoder on top of it: (base afterwards, chunk reader) *)
+Definition lc_open (comp : bytes) (rlen : N) (b : rdr) : rdr * rdr :=
+  let complete := rlen <=? blen (r_buf b) in
+  let avail := take rlen (r_buf b) in
+  let avail_end := if complete then None else r_end b in
+  let b' := {| r_buf := drop rlen (r_buf b); r_end := r_end b; r_seek := r_seek b |} in
+  let '(plain, pend) := if bytes_eqb comp [] && negb (mem_bytes comp (lo_custom lo))
+                        then (avail, avail_end) else dstream comp avail avail_end in
+  (b', {| r_buf := plain; r_end := pend; r_seek := false |}).
+
+Definition lc_validate (usize ucrc : N) (comp : bytes) (b chunk_rdr : rdr) (s : lstate) : option err * lstate :=
+  if (0 <? lo_max_chunk lo) && (lo_max_chunk lo <? usize) then (Some EChunkTooLarge, s) else
+  if (lx_ubuf s <? usize) && (max_int32 <? usize) then (Some ELengthOutOfRange, s) else
+  if (lx_ubuf s <? usize) && negb (usize * 2 <? max_int32) then (Some ELengthOutOfRange, s) else
+  let s := if lx_ubuf s <? usize then s <| lx_allocs := usize * 2 :: lx_allocs s |> <| lx_ubuf := usize * 2 |> else s in
+  let '(data, e, r1) := rd_full usize chunk_rdr in
+  let lazy := bytes_eqb comp [] || mem_bytes comp (lo_custom lo) in
+  let s := s <| lx_chunk := Some r1 |> in
+  match e with
+  | Some e => (Some e, s)
+  | None =>
+    let is_lz4 := bytes_eqb comp [x6c; x7a; x34] in
+    let extra_bad := if is_lz4 then
+                       match r_buf r1, r_end r1 with
+                       | [], None => None
+                       | _, Some e => Some e
+                       | _ :: _, None => Some EOther
+                       end
+                     else None in
+    let s := if is_lz4 then s <| lx_chunk := Some {| r_buf := []; r_end := r_end r1; r_seek := false |} |> else s in
+    match extra_bad with
+    | Some e => (Some e, s)
+    | None =>
+      if (0 <? ucrc) && negb (crc32 data =? ucrc) then (Some EInvalidChunkCrc, s)
+      else
+        let s := if lazy then s <| lx_base := {| r_buf := drop (blen data) (r_buf b); r_end := r_end b; r_seek := r_seek b |} |>
+                 else s in
+        (None, s <| lx_chunk := Some {| r_buf := data; r_end := None; r_seek := true |} |>)
+    end
+  end.
+
+Lemma load_chunk_eq rl s :
+  load_chunk lo dstream rl s =
+  match lx_chunk s with
+  | Some _ => (Some ENestedChunk, s)
+  | None =>
+    match lc_head rl s with
+    | LC1Err e s' => (Some e, s')
+    | LC1Ok usize ucrc comp rlen s1 =>
+      if negb (lc_supported comp) then (Some EOther, s1) else
+      let b := lx_base s1 in
+      let '(b', cr) := lc_open comp rlen b in
+      let s2 := s1 <| lx_base := b' |> <| lx_chunk := Some cr |> in
+      if negb (lo_validate lo) then (None, s2) else lc_validate usize ucrc comp b cr s2
+    end
+  end.
+Proof.
+  unfold load_chunk, lc_head. destruct (lx_chunk s); [reflexivity|].
+  destruct (rd_full 32 (lx_base s)) as [[hd e] b1].
+  destruct e as [e|]; [destruct e; reflexivity|].
+  destruct (_ <? _); [reflexivity|].
+  unfold make_safe.
+  match goal with |- context[lx_bufcap ?s <? ?n] => destruct (lx_bufcap s <? n) eqn:Eg end; cbn [andb].
+  - destruct (_ <? max_int32) eqn:Em; cbn [negb]; [|reflexivity].
+    destruct (rd_full _ _) as [[cb e2] b2].
+    destruct e2 as [e2|]; [destruct e2; reflexivity|].
+    unfold lc_supported. destruct (negb (_ || _)); [reflexivity|].
+    unfold lc_open. cbv zeta.
+    match goal with |- context[let '(_, _) := ?X in _] => destruct X as [plain pend] end.
+    destruct (negb (lo_validate lo)); [reflexivity|].
+    unfold lc_validate. destruct (_ && _); [reflexivity|].
+    unfold make_safe.
+    match goal with |- context[lx_ubuf ?s <? ?n] => destruct (lx_ubuf s <? n) eqn:Eu end; cbn [andb].
+    + destruct (max_int32 <? _); [reflexivity|]. clear Em.
+      destruct (_ * 2 <? max_int32); cbn [negb]; [|reflexivity].
+      reflexivity.
+    + reflexivity.
+  - destruct (rd_full _ _) as [[cb e2] b2].
+    destruct e2 as [e2|]; [destruct e2; reflexivity|].
+    unfold lc_supported. destruct (negb (_ || _)); [reflexivity|].
+    unfold lc_open. cbv zeta.
+    match goal with |- context[let '(_, _) := ?X in _] => destruct X as [plain pend] end.
+    destruct (negb (lo_validate lo)); [reflexivity|].
+    unfold lc_validate. destruct (_ && _); [reflexivity|].
+    unfold make_safe.
+    match goal with |- context[lx_ubuf ?s <? ?n] => destruct (lx_ubuf s <? n) eqn:Eu end; cbn [andb].
+    + destruct (max_int32 <? _); [reflexivity|].
+      destruct (_ * 2 <? max_int32); cbn [negb]; reflexivity.
+    + reflexivity.
+Qed.
+
+End LexFacts.
+
+
+Ltac rsimpl := unfold set; cbn [lx_base lx_chunk lx_ubuf lx_bufcap lx_allocs r_buf r_end r_seek].
+Ltac rsimpl_in H := unfold set in H; cbn [lx_base lx_chunk lx_ubuf lx_bufcap lx_allocs r_buf r_end r_seek] in H.
+
+Section Measure.
+Variable lo : lopts.
+Variable dstream : doracle.
+(* ---------- the progress measure ---------- *)
+Definition Lb (s : lstate) : nat := length (r_buf (lx_base s)).
+Definition cl (s : lstate) : nat := match lx_chunk s with None => 0%nat | Some r => S (length (r_buf r)) end.
+
+(* bookkeeping shared by the stages of load_chunk: how the allocation log grows *)
+Definition allocs_ext (P : N -> Prop) (s s' : lstate) : Prop :=
+  exists l, lx_allocs s' = l ++ lx_allocs s /\ Forall P l.
+
+Lemma allocs_ext_refl (P : N -> Prop) s : allocs_ext P s s.
+Proof. exists []. split; [reflexivity|constructor]. Qed.
+Lemma allocs_ext_trans (P : N -> Prop) a b c : allocs_ext P a b -> allocs_ext P b c -> allocs_ext P a c.
+Proof.
+  intros [l1 [E1 F1]] [l2 [E2 F2]]. exists (l2 ++ l1). split.
+  - rewrite E2, E1. apply app_assoc.
+  - apply Forall_app; auto.
+Qed.
+Lemma allocs_ext_eq (P : N -> Prop) s s' : lx_allocs s' = lx_allocs s -> allocs_ext P s s'.
+Proof. intros H. exists []. split; [exact H|constructor]. Qed.
+Lemma allocs_ext_one (P : N -> Prop) s s' n : lx_allocs s' = n :: lx_allocs s -> P n -> allocs_ext P s s'.
+Proof. intros H Hn. exists [n]. split; [exact H|repeat constructor; exact Hn]. Qed.
+Lemma allocs_ext_weaken (P Q : N -> Prop) s s' : (forall n, P n -> Q n) -> allocs_ext P s s' -> allocs_ext Q s s'.
+Proof. intros H [l [E F]]. exists l. split; [exact E|]. eapply Forall_impl; eauto. Qed.
+
+Definition head_alloc_ok (rl n : N) : Prop := n < max_int32 /\ n + 32 <= rl.
+Definition ubuf_alloc_ok (n : N) : Prop :=
+  n < max_int32 /\ (0 < lo_max_chunk lo -> n <= 2 * lo_max_chunk lo).
+
+Lemma lc_head_spec rl s :
+  match lc_head rl s with
+  | LC1Err _ s' | LC1Ok _ _ _ _ s' =>
+    adv (lx_base s) (lx_base s') /\ lx_chunk s' = lx_chunk s /\ lx_ubuf s' = lx_ubuf s /\
+    allocs_ext (head_alloc_ok rl) s s'
+  end.
+Proof.
+  unfold lc_head.
+  destruct (rd_full 32 (lx_base s)) as [[hd e] b1] eqn:E1. apply rd_full_adv in E1.
+  assert (G : forall x, adv (lx_base s) (lx_base (s <| lx_base := b1 |>)) /\
+     lx_chunk (s <| lx_base := b1 |>) = lx_chunk s /\ lx_ubuf (s <| lx_base := b1 |>) = lx_ubuf s /\
+     allocs_ext (head_alloc_ok x) s (s <| lx_base := b1 |>)).
+  { intros x. repeat split; try apply E1. apply allocs_ext_eq. reflexivity. }
+  destruct e as [e|]; [destruct e; apply G|].
+  destruct (rl <? _) eqn:Erl; [apply G|]. apply N.ltb_ge in Erl.
+  match goal with |- context[lx_bufcap ?s <? ?n] => destruct (lx_bufcap s <? n) eqn:Eg end; cbn [andb].
+  - destruct (_ <? max_int32) eqn:Em; cbn [negb]; [|apply G]. apply N.ltb_lt in Em.
+    destruct (rd_full _ _) as [[cb e2] b2] eqn:E2. apply rd_full_adv in E2. rsimpl_in E2.
+    assert (G2 : adv (lx_base s) b2) by (eapply adv_trans; eauto).
+    destruct e2 as [e2|]; [destruct e2|]; rsimpl; (split; [exact G2|split; [reflexivity|split; [reflexivity|]]]);
+      (eapply allocs_ext_one; [reflexivity|split; [exact Em|lia]]).
+  - destruct (rd_full _ _) as [[cb e2] b2] eqn:E2. apply rd_full_adv in E2. rsimpl_in E2.
+    assert (G2 : adv (lx_base s) b2) by (eapply adv_trans; eauto).
+    destruct e2 as [e2|]; [destruct e2|]; rsimpl; (split; [exact G2|split; [reflexivity|split; [reflexivity|]]]);
+      apply allocs_ext_eq; reflexivity.
+Qed.
+
+Lemma lc_validate_allocs usize ucrc comp b cr s oe s' :
+  lc_validate lo usize ucrc comp b cr s = (oe, s') -> allocs_ext ubuf_alloc_ok s s'.
+Proof.
+  unfold lc_validate.
+  destruct ((0 <? lo_max_chunk lo) && (lo_max_chunk lo <? usize)) eqn:Emc; [intros H; inversion H; subst; apply allocs_ext_refl|].
+  destruct ((lx_ubuf s <? usize) && (max_int32 <? usize)) eqn:Em1; [intros H; inversion H; subst; apply allocs_ext_refl|].
+  destruct ((lx_ubuf s <? usize) && negb (usize * 2 <? max_int32)) eqn:Em2; [intros H; inversion H; subst; apply allocs_ext_refl|].
+  match goal with |- context[rd_full usize cr] => destruct (rd_full usize cr) as [[data e] r1] eqn:Er end.
+  set (sa := if lx_ubuf s <? usize then _ else s).
+  assert (Ga : allocs_ext ubuf_alloc_ok s sa).
+  { subst sa. destruct (lx_ubuf s <? usize) eqn:Eu.
+    - eapply allocs_ext_one; [reflexivity|].
+      cbn [andb] in Em1, Em2. split; [lia|]. intros Hpos.
+      destruct (0 <? lo_max_chunk lo) eqn:E0; [|lia]. cbn [andb] in Emc. lia.
+    - apply allocs_ext_refl. }
+  clearbody sa.
+  destruct e as [e|].
+  { intros H; inversion H; subst; clear H.
+    eapply allocs_ext_trans; [exact Ga|apply allocs_ext_eq; reflexivity]. }
+  set (sb := if bytes_eqb comp _ then set lx_chunk _ _ else _).
+  assert (Ga2 : allocs_ext ubuf_alloc_ok s sb).
+  { subst sb. destruct (bytes_eqb comp _);
+      (eapply allocs_ext_trans; [exact Ga|apply allocs_ext_eq; reflexivity]). }
+  clearbody sb.
+  destruct (if bytes_eqb comp _ then _ else None) as [x|].
+  { intros H; inversion H; subst; exact Ga2. }
+  destruct ((0 <? ucrc) && negb (crc32 data =? ucrc)).
+  { intros H; inversion H; subst; exact Ga2. }
+  intros H; inversion H; subst; clear H.
+  destruct (_ || _);
+    (eapply allocs_ext_trans; [exact Ga2|apply allocs_ext_eq; reflexivity]).
+Qed.
+
+Section Bound.
+Variable B : nat.
+Hypothesis HB : forall c a e, (length (fst (dstream c a e)) <= length a + B)%nat.
+
+Lemma lc_open_spec comp rlen b b' cr : lc_open lo dstream comp rlen b = (b', cr) ->
+  adv b b' /\ (length (r_buf b') + length (r_buf cr) <= length (r_buf b) + B)%nat /\ r_seek cr = false.
+Proof.
+  unfold lc_open.
+  match goal with |- context[let '(_, _) := ?X in _] => destruct X as [plain pend] eqn:E end.
+  intros H; inversion H; subst; clear H. split; [apply adv_drop|]. cbn. split; [|reflexivity].
+  assert (length plain <= length (take rlen (r_buf b)) + B)%nat.
+  { destruct (_ && _).
+    - inversion E; subst. lia.
+    - pose proof (HB comp (take rlen (r_buf b)) (if rlen <=? blen (r_buf b) then None else r_end b)) as H.
+      rewrite E in H. exact H. }
+  rewrite take_length in H. rewrite drop_length. unfold blen in *. lia.
+Qed.
+
+Lemma lc_validate_spec usize ucrc comp b cr s oe s' :
+  lx_chunk s = Some cr ->
+  (Lb s <= length (r_buf b))%nat ->
+  (Lb s + length (r_buf cr) <= length (r_buf b) + B)%nat ->
+  lc_validate lo usize ucrc comp b cr s = (oe, s') ->
+  (Lb s' <= length (r_buf b))%nat /\ (Lb s' + cl s' <= length (r_buf b) + B + 1)%nat.
+Proof.
+  intros Hc H1 H2. unfold lc_validate.
+  assert (G0 : (Lb s <= length (r_buf b))%nat /\ (Lb s + cl s <= length (r_buf b) + B + 1)%nat).
+  { unfold cl. rewrite Hc. split; lia. }
+  destruct ((0 <? lo_max_chunk lo) && (lo_max_chunk lo <? usize)) eqn:Emc; [intros H; inversion H; subst; exact G0|].
+  destruct ((lx_ubuf s <? usize) && (max_int32 <? usize)) eqn:Em1; [intros H; inversion H; subst; exact G0|].
+  destruct ((lx_ubuf s <? usize) && negb (usize * 2 <? max_int32)) eqn:Em2; [intros H; inversion H; subst; exact G0|].
+  match goal with |- context[rd_full usize cr] => destruct (rd_full usize cr) as [[data e] r1] eqn:Er end.
+  pose proof (rd_full_adv _ _ _ _ _ Er) as Ha. destruct Ha as [_ [_ Ha]].
+  set (sa := if lx_ubuf s <? usize then _ else s).
+  assert (Gl : Lb sa = Lb s).
+  { subst sa. destruct (lx_ubuf s <? usize) eqn:Eu; reflexivity. }
+  clearbody sa.
+  destruct e as [e|].
+  { intros H; inversion H; subst; clear H. unfold Lb, cl in *. rsimpl. split; lia. }
+  apply rd_full_ok in Er. destruct Er as [Ed [Eb _]].
+  assert (Hd : (length data <= length (r_buf cr))%nat) by (rewrite Eb, app_length; lia).
+  set (sb := if bytes_eqb comp _ then set lx_chunk _ _ else _).
+  assert (Gsb : Lb sb = Lb s /\ (cl sb <= S (length (r_buf cr)))%nat).
+  { subst sb. destruct (bytes_eqb comp _); unfold Lb, cl in *; rsimpl; cbn [length]; split; lia. }
+  destruct Gsb as [Gl2 Gc2]. clearbody sb.
+  destruct (if bytes_eqb comp _ then _ else None) as [x|].
+  { intros H; inversion H; subst; clear H. split; lia. }
+  destruct ((0 <? ucrc) && negb (crc32 data =? ucrc)).
+  { intros H; inversion H; subst; clear H. split; lia. }
+  intros H; inversion H; subst; clear H.
+  destruct (_ || _); unfold Lb, cl in *; rsimpl.
+  - rewrite drop_length. unfold blen. split; lia.
+  - split; lia.
+Qed.
+End Bound.
+End Measure.
+
+
+Definition no_pe {A} (x : outcome A) : Prop :=
+  match x with Panic _ | Exit _ => False | _ => True end.
+
+Inductive sres :=
+| SDone (evs : list event) (r : nres) (s : lstate)
+| SCont (s : lstate) (evs : list event).
+
+Section Step.
+Variable lo : lopts.
+Variable dstream : doracle.
+
+Lemma make_safe_cases n s :
+  (n < max_int32 /\ make_safe n s = Ok (s <| lx_allocs := n :: lx_allocs s |>)) \/
+  (max_int32 <= n /\ make_safe n s = Err ELengthOutOfRange).
+Proof.
+  unfold make_safe. destruct (n <? max_int32) eqn:E; [left|right]; split; auto.
+  - apply N.ltb_lt; exact E.
+  - apply N.ltb_ge; exact E.
+Qed.
+
+Definition lex_step (pcap : N) (s : lstate) (evs : list event) : sres :=
+  let '(hd, e, r1) := rd_full 9 (cur s) in
+  let in_chunk := match lx_chunk s with Some _ => true | None => false end in
+  let s1 := set_cur r1 s in
+  match e with
+  | Some e =>
+    let ueof := err_eqb e EUnexpectedEOF || err_eqb e ETruncated in
+    let eof := err_eqb e EEOF in
+    if in_chunk && (eof || ueof) then SCont (s1 <| lx_chunk := None |>) evs
+    else if ueof then
+      if Nat.eqb (length hd) 8 && bytes_eqb hd magic then SDone evs (NErr EEOF) s1
+      else SDone evs (NErr ETruncated) s1
+    else SDone evs (NErr e) s1
+  | None =>
+    let op := match hd with b :: _ => b | [] => x00 end in
+    let rlen := unle (skipn 1 hd) in
+    if (0 <? lo_max_record lo) && (lo_max_record lo <? rlen) then SDone evs (NErr ERecordTooLarge) s1 else
+    if Byte.eqb op OpChunk && negb (lo_emit_chunks lo) then
+      match load_chunk lo dstream rlen s1 with
+      | (None, s2) => SCont s2 evs
+      | (Some e, s2) =>
+        if lo_emit_invalid lo && err_eqb e EInvalidChunkCrc then SDone evs (NTok EvInvalidChunk) s2
+        else SDone evs (NErr e) s2
+      end
+    else if Byte.eqb op OpAttachment then
+      if 9223372036854775807 <? rlen then SDone evs (NErr EOther) s1 else
+      let '(ev, e, r2) := do_attachment lo rlen (cur s1) in
+      let s2 := set_cur r2 s1 in
+      let evs := match ev with Some ev => evs ++ [ev] | None => evs end in
+      match e with
+      | Some e => SDone evs (NErr e) s2
+      | None => SCont s2 evs
+      end
+    else
+      if (pcap <? rlen) && negb (rlen <? max_int32) then SDone evs (NErr ELengthOutOfRange) s1 else
+      let s1 := if pcap <? rlen then s1 <| lx_allocs := rlen :: lx_allocs s1 |> else s1 in
+      let '(body, e, r2) := rd_full rlen (cur s1) in
+      let s2 := set_cur r2 s1 in
+      match e with
+      | Some EUnexpectedEOF => SDone evs (NErr ETruncated) s2
+      | Some e => SDone evs (NErr e) s2
+      | None =>
+        if known_op op then SDone evs (NTok (EvToken op body)) s2
+        else if Byte.eqb op x00 then SDone evs (NErr EInvalidZeroOpcode) s2
+        else SCont s2 evs
+      end
+  end.
+
+Lemma lex_next_S f pcap s evs :
+  lex_next lo dstream (S f) pcap s evs =
+  match lex_step pcap s evs with
+  | SDone a b c => Ok (a, b, c)
+  | SCont s' evs' => lex_next lo dstream f pcap s' evs'
+  end.
+Proof.
+  cbn [lex_next]. unfold lex_step.
+  destruct (rd_full 9 (cur s)) as [[hd e] r1].
+  destruct e as [e|].
+  - destruct (_ && _); [reflexivity|]. destruct (_ || _); [destruct (_ && _); reflexivity|reflexivity].
+  - destruct (_ && _); [reflexivity|].
+    destruct (_ && _).
+    + destruct (load_chunk _ _ _ _) as [[e2|] s2]; [destruct (_ && _); reflexivity|reflexivity].
+    + destruct (Byte.eqb _ OpAttachment).
+      * destruct (_ <? _); [reflexivity|].
+        destruct (do_attachment _ _ _) as [[ev e2] r2].
+        destruct e2; reflexivity.
+      * unfold make_safe. destruct (pcap <? _); cbn [andb].
+        -- destruct (_ <? max_int32); cbn [negb].
+           ++ destruct (rd_full _ _) as [[body e3] r3]. destruct e3 as [[]|]; try reflexivity.
+              destruct (known_op _); [reflexivity|]. destruct (Byte.eqb _ _); reflexivity.
+           ++ reflexivity.
+        -- destruct (rd_full _ _) as [[body e3] r3]. destruct e3 as [[]|]; try reflexivity.
+              destruct (known_op _); [reflexivity|]. destruct (Byte.eqb _ _); reflexivity.
+Qed.
+
+End Step.
+
+
+Section Allocs.
+Variable lo : lopts.
+Variable dstream : doracle.
+
+Definition chunk_alloc_ok (rl n : N) : Prop :=
+  n < max_int32 /\
+  (n + 32 <= rl \/ (lo_validate lo = true /\ (0 < lo_max_chunk lo -> n <= 2 * lo_max_chunk lo))).
+
+Lemma load_chunk_allocs rl s oe s' : load_chunk lo dstream rl s = (oe, s') ->
+  allocs_ext (chunk_alloc_ok rl) s s'.
+Proof.
+  rewrite load_chunk_eq. destruct (lx_chunk s) eqn:Ec.
+  { intros H; inversion H; subst. apply allocs_ext_refl. }
+  pose proof (lc_head_spec rl s) as Hh.
+  assert (W1 : forall s1, allocs_ext (head_alloc_ok rl) s s1 -> allocs_ext (chunk_alloc_ok rl) s s1).
+  { intros s1. apply allocs_ext_weaken. intros n [A1 A2]. split; [exact A1|left; exact A2]. }
+  destruct (lc_head rl s) as [e s1|usize ucrc comp rlen s1].
+  { destruct Hh as [_ [_ [_ Hal]]]. intros H; inversion H; subst. apply W1; exact Hal. }
+  destruct Hh as [_ [_ [_ Hal]]].
+  destruct (negb (lc_supported lo comp)).
+  { intros H; inversion H; subst. apply W1; exact Hal. }
+  cbv zeta. destruct (lc_open lo dstream comp rlen (lx_base s1)) as [b' cr] eqn:Eo.
+  destruct (negb (lo_validate lo)) eqn:Ev.
+  { intros H; inversion H; subst.
+    apply W1. eapply allocs_ext_trans; [exact Hal|apply allocs_ext_eq; reflexivity]. }
+  intros H. apply lc_validate_allocs in H.
+  eapply allocs_ext_trans; [apply W1; exact Hal|].
+  eapply allocs_ext_trans; [apply allocs_ext_eq; reflexivity|].
+  eapply allocs_ext_weaken; [|exact H]. intros n [A1 A2]. split; [exact A1|right].
+  split; [destruct (lo_validate lo); [reflexivity|discriminate]|exact A2].
+Qed.
+
+Lemma cur_set_cur r s : cur (set_cur r s) = r.
+Proof. unfold cur, set_cur. destruct (lx_chunk s) eqn:E; rsimpl; rewrite ?E; reflexivity. Qed.
+Lemma chunk_set_cur r s :
+  lx_chunk (set_cur r s) = match lx_chunk s with Some _ => Some r | None => None end.
+Proof. unfold set_cur. destruct (lx_chunk s) eqn:E; rsimpl; rewrite ?E; reflexivity. Qed.
+Lemma allocs_set_cur r s : lx_allocs (set_cur r s) = lx_allocs s.
+Proof. unfold set_cur. destruct (lx_chunk s) eqn:E; rsimpl; rewrite ?E; reflexivity. Qed.
+Lemma base_set_cur r s :
+  lx_base (set_cur r s) = match lx_chunk s with Some _ => lx_base s | None => r end.
+Proof. unfold set_cur. destruct (lx_chunk s) eqn:E; rsimpl; rewrite ?E; reflexivity. Qed.
+
+Definition step_alloc_ok (n : N) : Prop :=
+  n < max_int32 /\
+  (0 < lo_max_record lo -> n <= lo_max_record lo \/
+     (lo_emit_chunks lo = false /\ lo_validate lo = true /\ (0 < lo_max_chunk lo -> n <= 2 * lo_max_chunk lo))).
+
+Lemma lex_step_allocs pcap s evs :
+  match lex_step lo dstream pcap s evs with
+  | SCont s' _ | SDone _ _ s' => allocs_ext step_alloc_ok s s'
+  end.
+Proof.
+  unfold lex_step.
+  destruct (rd_full 9 (cur s)) as [[hd e] r1] eqn:E9.
+  assert (A1 : allocs_ext step_alloc_ok s (set_cur r1 s)) by (apply allocs_ext_eq, allocs_set_cur).
+  destruct e as [e|].
+  { destruct (_ && (_ || _)).
+    - eapply allocs_ext_trans; [exact A1|apply allocs_ext_eq; reflexivity].
+    - destruct (_ || _); [destruct (_ && _)|]; auto. }
+  set (rlen := unle (skipn 1 hd)).
+  destruct ((0 <? lo_max_record lo) && (lo_max_record lo <? rlen)) eqn:Emr; [exact A1|].
+  assert (Hrl : 0 < lo_max_record lo -> rlen <= lo_max_record lo) by lia.
+  destruct (_ && negb (lo_emit_chunks lo)) eqn:Eck.
+  { destruct (load_chunk lo dstream rlen (set_cur r1 s)) as [oe s2] eqn:El.
+    apply load_chunk_allocs in El.
+    assert (A2 : allocs_ext step_alloc_ok s s2).
+    { eapply allocs_ext_trans; [exact A1|]. eapply allocs_ext_weaken; [|exact El].
+      intros n [B1 B2]. split; [exact B1|]. intros Hpos. specialize (Hrl Hpos).
+      destruct B2 as [B2|[B2 B3]]; [left; lia|right].
+      split; [|split; assumption]. destruct (lo_emit_chunks lo); [|reflexivity].
+      rewrite andb_false_r in Eck. discriminate. }
+    destruct oe as [x|]; [destruct (lo_emit_invalid lo && _)|]; exact A2. }
+  destruct (Byte.eqb _ OpAttachment).
+  { destruct (9223372036854775807 <? rlen); [exact A1|].
+    destruct (do_attachment lo rlen (cur (set_cur r1 s))) as [[ev e2] r2] eqn:Ed.
+    assert (A2 : allocs_ext step_alloc_ok s (set_cur r2 (set_cur r1 s))).
+    { apply allocs_ext_eq. rewrite !allocs_set_cur. reflexivity. }
+    destruct e2; exact A2. }
+  destruct ((pcap <? rlen) && negb (rlen <? max_int32)) eqn:Ems; [exact A1|].
+  set (s1 := if pcap <? rlen then _ else _).
+  assert (G3 : allocs_ext step_alloc_ok s s1).
+  { subst s1. destruct (pcap <? rlen) eqn:Ep; [|exact A1].
+    eapply allocs_ext_one; [rewrite <- (allocs_set_cur r1 s); reflexivity|].
+    cbn [andb] in Ems. split; [lia|]. intros Hpos. left. auto. }
+  clearbody s1.
+  destruct (rd_full rlen (cur s1)) as [[body e3] r3] eqn:E3.
+  assert (A2 : allocs_ext step_alloc_ok s (set_cur r3 s1)).
+  { eapply allocs_ext_trans; [exact G3|apply allocs_ext_eq, allocs_set_cur]. }
+  destruct e3 as [e3|]; [destruct e3; exact A2|].
+  destruct (known_op _); [exact A2|].
+  destruct (Byte.eqb _ x00); exact A2.
+Qed.
+End Allocs.
+
+Section Total.
+Variable lo : lopts.
+Variable dstream : doracle.
+Variable B : nat.
+Hypothesis HB : forall c a e, (length (fst (dstream c a e)) <= length a + B)%nat.
+
+Lemma load_chunk_spec rl s oe s' : load_chunk lo dstream rl s = (oe, s') ->
+  match lx_chunk s with
+  | Some _ => s' = s /\ oe = Some ENestedChunk
+  | None => (Lb s' <= Lb s)%nat /\ (Lb s' + cl s' <= Lb s + B + 1)%nat
+  end.
+Proof.
+  rewrite load_chunk_eq. destruct (lx_chunk s) eqn:Ec.
+  { intros H; inversion H; subst. split; reflexivity. }
+  pose proof (lc_head_spec rl s) as Hh.
+  destruct (lc_head rl s) as [e s1|usize ucrc comp rlen s1].
+  { destruct Hh as [[_ [_ Ha]] [Hc _]]. intros H; inversion H; subst.
+    unfold Lb, cl. rewrite Hc, Ec. lia. }
+  destruct Hh as [[_ [_ Ha]] [Hc _]].
+  destruct (negb (lc_supported lo comp)).
+  { intros H; inversion H; subst. unfold Lb, cl. rewrite Hc, Ec. lia. }
+  cbv zeta. destruct (lc_open lo dstream comp rlen (lx_base s1)) as [b' cr] eqn:Eo.
+  apply (lc_open_spec lo dstream B HB) in Eo. destruct Eo as [[_ [_ Ho1]] [Ho2 _]].
+  destruct (negb (lo_validate lo)) eqn:Ev.
+  { intros H; inversion H; subst. unfold Lb, cl. rsimpl. lia. }
+  intros H. eapply (lc_validate_spec lo dstream B HB) in H.
+  - destruct H as [V1 V2]. unfold Lb in *; lia.
+  - reflexivity.
+  - unfold Lb. rsimpl. lia.
+  - unfold Lb. rsimpl. lia.
+Qed.
+
+Definition mu (s : lstate) : nat := (Lb s * (B + 2) + cl s)%nat.
+
+Lemma mu_chunk_step (a c b1 b0 : nat) :
+  (a <= b1)%nat -> (a + c <= b1 + B + 1)%nat -> (b1 + 9 <= b0)%nat ->
+  (a * (B + 2) + c < b0 * (B + 2))%nat.
+Proof. intros. nia. Qed.
+
+
+Lemma mu_set_cur r s k : (length (r_buf r) + k <= length (r_buf (cur s)))%nat ->
+  (mu (set_cur r s) + k <= mu s)%nat.
+Proof.
+  unfold mu, Lb, cl, cur, set_cur. destruct (lx_chunk s) eqn:E; rsimpl; rewrite ?E; intros H; [lia|nia].
+Qed.
+
+Lemma lex_step_spec pcap s evs :
+  match lex_step lo dstream pcap s evs with
+  | SCont s' _ => (mu s' < mu s)%nat
+  | SDone _ (NTok _) s' => (mu s' < mu s)%nat
+  | SDone _ (NErr _) s' => (mu s' <= mu s)%nat
+  end.
+Proof.
+  unfold lex_step.
+  destruct (rd_full 9 (cur s)) as [[hd e] r1] eqn:E9.
+  pose proof (rd_full_adv _ _ _ _ _ E9) as [_ [_ Ha]].
+  destruct e as [e|].
+  { assert (M1 : (mu (set_cur r1 s) <= mu s)%nat).
+    { pose proof (mu_set_cur r1 s 0). lia. }
+    destruct (lx_chunk s) eqn:Ec.
+    - destruct (true && _).
+      + unfold mu, Lb, cl, set_cur. rewrite Ec. rsimpl. lia.
+      + destruct (_ || _); [destruct (_ && _)|]; auto.
+    - cbn [andb]. destruct (_ || _); [destruct (_ && _)|]; auto. }
+  apply rd_full_ok in E9. destruct E9 as [E9a [E9b _]].
+  assert (M1 : (mu (set_cur r1 s) + 9 <= mu s)%nat).
+  { apply mu_set_cur. rewrite E9b, app_length. unfold blen in E9a. lia. }
+  set (rlen := unle (skipn 1 hd)).
+  destruct ((0 <? lo_max_record lo) && (lo_max_record lo <? rlen)) eqn:Emr; [lia|].
+  destruct (_ && negb (lo_emit_chunks lo)) eqn:Eck.
+  { destruct (load_chunk lo dstream rlen (set_cur r1 s)) as [oe s2] eqn:El.
+    apply load_chunk_spec in El.
+    assert (M2 : (mu s2 < mu s)%nat).
+    { rewrite chunk_set_cur in El. destruct (lx_chunk s) eqn:Ec.
+      - destruct El as [-> _]. lia.
+      - destruct El as [L1 L2]. unfold mu at 2. unfold cl. rewrite Ec.
+        unfold Lb in L1, L2 |- *. rewrite base_set_cur, Ec in L1, L2.
+        rewrite Nat.add_0_r. apply (mu_chunk_step _ _ (length (r_buf r1))); try assumption.
+        unfold cur in E9b. rewrite Ec in E9b. rewrite E9b, app_length. unfold blen in E9a. lia. }
+    destruct oe as [x|]; [destruct (lo_emit_invalid lo && _)|]; auto; lia. }
+  destruct (Byte.eqb _ OpAttachment).
+  { destruct (9223372036854775807 <? rlen); [lia|].
+    destruct (do_attachment lo rlen (cur (set_cur r1 s))) as [[ev e2] r2] eqn:Ed.
+    apply do_attachment_adv in Ed. destruct Ed as [_ [_ Ed]].
+    assert (M2 : (mu (set_cur r2 (set_cur r1 s)) <= mu (set_cur r1 s))%nat).
+    { pose proof (mu_set_cur r2 (set_cur r1 s) 0). lia. }
+    destruct e2; lia. }
+  destruct ((pcap <? rlen) && negb (rlen <? max_int32)) eqn:Ems; [lia|].
+  set (s1 := if pcap <? rlen then _ else _).
+  assert (G1 : cur s1 = r1 /\ (mu s1 + 9 <= mu s)%nat).
+  { subst s1. destruct (pcap <? rlen) eqn:Ep.
+    - split; [|exact M1]. rewrite <- (cur_set_cur r1 s) at 2. reflexivity.
+    - split; [apply cur_set_cur|exact M1]. }
+  destruct G1 as [G1 G2]. clearbody s1.
+  destruct (rd_full rlen (cur s1)) as [[body e3] r3] eqn:E3.
+  apply rd_full_adv in E3. destruct E3 as [_ [_ E3]].
+  assert (M2 : (mu (set_cur r3 s1) <= mu s1)%nat).
+  { pose proof (mu_set_cur r3 s1 0). lia. }
+  destruct e3 as [e3|]; [destruct e3; lia|].
+  destruct (known_op _); [lia|].
+  destruct (Byte.eqb _ x00); lia.
+Qed.
+
+End Total.
+
+
+Section NoCrash.
+Variable lo : lopts.
+Variable dstream : doracle.
+
+Lemma lex_next_no_pe : forall fuel pcap s evs, no_pe (lex_next lo dstream fuel pcap s evs).
+Proof.
+  induction fuel as [|f IH]; intros pcap s evs; [exact I|].
+  rewrite lex_next_S. destruct (lex_step _ _ _ _ _); [exact I|apply IH].
+Qed.
+
+Lemma new_lexer_okerr src : okerr (new_lexer lo src).
+Proof.
+  unfold new_lexer. destruct (lo_skip_magic lo); [exact I|].
+  destruct (rd_full 8 src) as [[m e] r1]. destruct e; [exact I|].
+  destruct (bytes_eqb m magic); exact I.
+Qed.
+
+Lemma lex_loop_no_pe : forall n fuel s acc, no_pe (lex_loop lo dstream n fuel s acc).
+Proof.
+  induction n as [|n IH]; intros fuel s acc; [exact I|]. cbn [lex_loop].
+  pose proof (lex_next_no_pe fuel 0 s []) as H.
+  destruct (lex_next lo dstream fuel 0 s []) as [[[evs r] s']| | | |]; try exact I; try contradiction.
+  destruct r; [apply IH|exact I].
+Qed.
+
+Lemma lex_all_no_pe fuel src : no_pe (lex_all lo dstream fuel src).
+Proof.
+  unfold lex_all. pose proof (new_lexer_okerr src) as H.
+  destruct (new_lexer lo src); try exact I; try contradiction. apply lex_loop_no_pe.
+Qed.
+
+(* ----- allocation log ----- *)
+Lemma lex_next_allocs : forall fuel pcap s evs evs' res s',
+  lex_next lo dstream fuel pcap s evs = Ok (evs', res, s') -> allocs_ext (step_alloc_ok lo) s s'.
+Proof.
+  induction fuel as [|f IH]; intros pcap s evs evs' res s'; [discriminate|].
+  rewrite lex_next_S. pose proof (lex_step_allocs lo dstream pcap s evs) as Hs.
+  destruct (lex_step _ _ _ _ _) as [a b c|s1 evs1].
+  - intros H; inversion H; subst. exact Hs.
+  - intros H. apply IH in H. eapply allocs_ext_trans; eauto.
+Qed.
+
+Lemma allocs_ext_forall (P : N -> Prop) s s' :
+  allocs_ext P s s' -> Forall P (lx_allocs s) -> Forall P (lx_allocs s').
+Proof. intros [l [E F]] H. rewrite E. apply Forall_app; auto. Qed.
+
+Lemma lex_loop_allocs : forall n fuel s acc evs fin s',
+  lex_loop lo dstream n fuel s acc = Ok (evs, fin, s') -> allocs_ext (step_alloc_ok lo) s s'.
+Proof.
+  induction n as [|n IH]; intros fuel s acc evs fin s'; [discriminate|]. cbn [lex_loop].
+  destruct (lex_next lo dstream fuel 0 s []) as [[[evs1 r] s1]| | | |] eqn:E; try discriminate.
+  apply lex_next_allocs in E.
+  destruct r.
+  - intros H. apply IH in H. eapply allocs_ext_trans; eauto.
+  - intros H; inversion H; subst. exact E.
+Qed.
+
+Lemma new_lexer_allocs src s : new_lexer lo src = Ok s -> lx_allocs s = [].
+Proof.
+  unfold new_lexer. destruct (lo_skip_magic lo); [intros H; inversion H; reflexivity|].
+  destruct (rd_full 8 src) as [[m e] r1]. destruct e; [discriminate|].
+  destruct (bytes_eqb m magic); [|discriminate]. intros H; inversion H; reflexivity.
+Qed.
+
+Lemma lex_all_allocs fuel src evs fin s' :
+  lex_all lo dstream fuel src = Ok (evs, fin, s') -> Forall (step_alloc_ok lo) (lx_allocs s').
+Proof.
+  unfold lex_all. destruct (new_lexer lo src) as [s| | | |] eqn:E; try discriminate.
+  apply new_lexer_allocs in E. intros H. apply lex_loop_allocs in H.
+  eapply allocs_ext_forall; [exact H|]. rewrite E. constructor.
+Qed.
+
+End NoCrash.
+
+Section Total2.
+Variable lo : lopts.
+Variable dstream : doracle.
+Variable B : nat.
+Hypothesis HB : forall c a e, (length (fst (dstream c a e)) <= length a + B)%nat.
+
+Lemma lex_next_total : forall fuel pcap s evs, (mu B s < fuel)%nat ->
+  exists evs' res s', lex_next lo dstream fuel pcap s evs = Ok (evs', res, s') /\
+    match res with NTok _ => (mu B s' < mu B s)%nat | NErr _ => (mu B s' <= mu B s)%nat end.
+Proof.
+  induction fuel as [|f IH]; intros pcap s evs Hf; [lia|].
+  rewrite lex_next_S. pose proof (lex_step_spec lo dstream B HB pcap s evs) as Hs.
+  destruct (lex_step _ _ _ _ _) as [a b c|s1 evs1].
+  - exists a, b, c. split; [reflexivity|exact Hs].
+  - destruct (IH pcap s1 evs1) as [evs' [res [s' [E1 E2]]]]; [lia|].
+    exists evs', res, s'. split; [exact E1|]. destruct res; lia.
+Qed.
+
+Lemma lex_loop_total : forall n fuel s acc, (mu B s < fuel)%nat -> (mu B s < n)%nat ->
+  exists evs fin s', lex_loop lo dstream n fuel s acc = Ok (evs, fin, s').
+Proof.
+  induction n as [|n IH]; intros fuel s acc Hf Hn; [lia|]. cbn [lex_loop].
+  destruct (lex_next_total fuel 0 s [] Hf) as [evs' [res [s' [E1 E2]]]]. rewrite E1.
+  destruct res.
+  - apply IH; lia.
+  - eauto.
+Qed.
+
+Fixpoint tokens_produced (n fuel : nat) (s : lstate) : Prop :=
+  match n with
+  | O => True
+  | S n' => exists evs ev s', lex_next lo dstream fuel 0 s [] = Ok (evs, NTok ev, s') /\
+                              tokens_produced n' fuel s'
+  end.
+
+Lemma lex_loop_out_of_fuel : forall n fuel s acc, (mu B s < fuel)%nat ->
+  lex_loop lo dstream n fuel s acc = OutOfFuel -> tokens_produced n fuel s.
+Proof.
+  induction n as [|n IH]; intros fuel s acc Hf; [intros; exact I|]. cbn [lex_loop tokens_produced].
+  destruct (lex_next_total fuel 0 s [] Hf) as [evs' [res [s' [E1 E2]]]]. rewrite E1.
+  destruct res; [|discriminate].
+  intros H. exists evs', ev, s'. split; [reflexivity|]. eapply IH; [|exact H]. lia.
+Qed.
+
+Lemma new_lexer_mu src s : new_lexer lo src = Ok s -> (mu B s <= length (r_buf src) * (B + 2))%nat.
+Proof.
+  unfold new_lexer. destruct (lo_skip_magic lo).
+  { intros H; inversion H; subst. unfold mu, Lb, cl. rsimpl. lia. }
+  destruct (rd_full 8 src) as [[m e] r1] eqn:E. apply rd_full_adv in E. destruct E as [_ [_ E]].
+  destruct e; [discriminate|].
+  destruct (bytes_eqb m magic); [|discriminate]. intros H; inversion H; subst.
+  unfold mu, Lb, cl. rsimpl. nia.
+Qed.
+
+Lemma lex_all_total fuel src : (length (r_buf src) * (B + 2) < fuel)%nat ->
+  okerr (lex_all lo dstream fuel src).
+Proof.
+  intros Hf. unfold lex_all. pose proof (new_lexer_okerr lo src) as Hn.
+  destruct (new_lexer lo src) as [s| | | |] eqn:E; try exact I; try contradiction.
+  apply new_lexer_mu in E.
+  destruct (lex_loop_total fuel fuel s []) as [evs [fin [s' H]]]; try lia.
+  rewrite H. exact I.
+Qed.
+
+End Total2.
